@@ -25,7 +25,14 @@ RULE = ("Record ids: Hypothesis lists of 1-12 (id, name) pairs built by construc
         "pre_process_sequences on real Records (one CDS each, cpus=1). Non-trivial = at least two records whose "
         "ids coincide under one of the rewrite stages (equal, equal after stripping illegal characters, equal "
         "without a _N suffix, same first 7/12 characters when both are long, same accession prefix, or one is "
-        "the other's shortened form); for the length subcheck = some id or name longer than 16. Gene ids: 1-9 "
+        "the other's shortened form, equal after NFKC normalisation + stripping); for the length subcheck = some id "
+        "or name longer than 16. In 1 case of 3 a duplicated id plus an over-long id whose shortened form is the "
+        "de-duplicated form; in 1 of 4 ids with non-ASCII look-alike characters (no-break/ideographic space, "
+        "fullwidth punctuation, ligatures, combining marks) plus their cleaned twins. crowd_enum: constructed "
+        "families of 11-1003 ids that all collide (same contig number and first 12 characters, literal "
+        "<prefix>_<n> names taken, identical ids, identical versioned accessions) so that generated counters "
+        "cross 9/10, 99/100, 999/1000; unique_id(_enum): generate_unique_id called directly with taken ranges "
+        "around those boundaries x start x max_length at/one below/one above the boundary width. Gene ids: 1-9 "
         "CDS (and gene) features with names drawn from a small pool (duplicates, names differing only in "
         "characters that are sanitised, names equal to another CDS's renamed form tag_<crc32>), duplicate "
         "locations, added through Record.add_cds_feature or Record.from_biopython; non-trivial = two features "
@@ -41,6 +48,10 @@ ASSUMPTIONS = [
     "a gene set without duplicate sanitised names and without duplicate locations must be accepted; with a duplicate "
     "either unique names or SecmetInvalidInputError is accepted",
     "records are matched between input and output through a marker in the description field",
+    "RuntimeError('Could not generate unique id ...') from generate_unique_id (pinned by test_overlong) is an "
+    "accepted refusal of the whole input only with long headers refused and >= 1000 ids sharing the first 12 "
+    "characters; called directly it is accepted only if the smallest free candidate does not fit max_length",
+    "non-ASCII characters are legal in ids and are not judged themselves (only the documented ASCII set is)",
 ]
 
 ILLEGAL_RECORD = frozenset('''!"#$%&()*+,:;=>?@[]^`'{|}/ ''')
